@@ -322,7 +322,9 @@ func ruleC08R3(r *Run) {
 			r.Fail("executeAction#loop", rac[0].Instr.Pos(), "runAction is not retried in a loop")
 		} else {
 			class, detail := p.classifyLoop(ex, l, p.mustDraw())
-			okBound := class == "counted" && strings.Contains(detail, fmt.Sprintf("bound %d", tries))
+			// validActionTries iterations: counting up from 0 to the bound, or down from the bound to 0
+			okBound := class == "counted" && (strings.Contains(detail, fmt.Sprintf("changes by 1 per cycle from 0 towards the loop-invariant bound %d", tries)) ||
+				strings.Contains(detail, fmt.Sprintf("changes by -1 per cycle from %d towards the loop-invariant bound 0", tries)))
 			r.Check("executeAction#bounded", l.Header.Instrs[0].Pos(), okBound, "the retry loop is counted up to validActionTries", "the retry loop of executeAction is not bounded by validActionTries ("+class+": "+detail+"): Repeat can loop forever when no action is able to run")
 			skipped := extractOr(rac[0].Value(), 1)
 			for i, pred := range l.Header.Preds {
